@@ -192,6 +192,21 @@ def _once(case, acc, tree, labels):
             if mixed != lines and mixed != loosened:
                 raise Violation("options-changed-mid-iteration", "%s: filter_/stop were reset after the node lines of a running iteration; it finished as %r - neither the export under the old predicates %r nor under the new ones %r" % (ctx, mixed, lines, loosened))
             acc.tag("options_changed_during_a_running_iteration")
+        # the exporter pointed at another node of the tree for a while (exporter.node is a public attribute): identifiers
+        # are stable across iterations of ONE exporter, whatever it was asked to export in between
+        if not spec and not case["hide"] and not case["stop"] and maxlevel is None and len(declared) >= 2:
+            sub = declared[-1] if declared[-1].children else declared[1]
+            exporter.node = sub
+            try:
+                part = list(exporter)
+            finally:
+                exporter.node = start
+            stray = [line for line in part[1 + len(options):] if line not in lines]
+            if stray:
+                raise Violation("identifier-stability", "%s: after exporter.node was pointed at node %r, its export has the lines %r, which the export of the whole tree by the same exporter does not have" % (ctx, sub.name, stray))
+            if list(exporter) != lines:
+                raise Violation("identifier-stability", "%s: after exporter.node was pointed at another node and back, the export of the tree differs" % ctx)
+            acc.tag("exporter_pointed_at_another_node_and_back")
         known = dict(ident)
         # the same exporter after the tree has grown ...
         extra = Node("extra-first-child")
@@ -356,7 +371,7 @@ def plan(tier, seed):
     examples = 150 if tier == "quick" else 1200
     tasks = [{"engine": "enum", "max_nodes": max_nodes, "index": i, "count": nshards * 2} for i in range(nshards * 2)]
     tasks += [{"engine": "hyp", "examples": examples, "seed": seed * 1000 + i} for i in range(nshards)]
-    tasks += [{"engine": "round", "totals": [t]} for t in ((256, 1024, 2048, 4096, 8192) if tier == "quick" else (128, 256, 512, 1000, 1024, 2048, 4096, 8192, 10000, 16384))]
+    tasks += [{"engine": "round", "totals": [t]} for t in ((256, 1000, 1024, 2000, 2048, 3000, 4096, 8192) if tier == "quick" else (100, 128, 256, 500, 512, 1000, 1024, 2000, 2048, 3000, 4096, 5000, 8192, 10000, 16384))]
     tasks += [{"engine": "tall", "factor": f} for f in ((0.6,) if tier == "quick" else (0.3, 0.6, 0.8))]
     tasks += [{"engine": "locale"}, {"engine": "gc"}, {"engine": "fraction", "max_nodes": 4 if tier == "quick" else 5}]
     tasks += [{"engine": "wide", "widths": [w]} for w in ((300, 700) if tier == "quick" else (257, 300, 700, 1100, 2500))]
